@@ -58,12 +58,16 @@ func c20Helpers() []c20Helper {
 		{name: "IsIRIs", run: func(x ap.Item, r *c20Result) { ap.IsIRIs(x) }},
 		{name: "IsItemCollection", run: func(x ap.Item, r *c20Result) { ap.IsItemCollection(x) }},
 		{name: "ItemsEqual(x,x)", run: func(x ap.Item, r *c20Result) { must(r, ap.ItemsEqual(x, x), "ItemsEqual(x,x) is false") }},
-		{name: "ItemsEqual(x,nil)", run: func(x ap.Item, r *c20Result) { must(r, ap.ItemsEqual(x, nil) && ap.ItemsEqual(nil, x), "not equal to the nil item") }},
+		{name: "ItemsEqual(x,nil)", run: func(x ap.Item, r *c20Result) {
+			must(r, ap.ItemsEqual(x, nil) && ap.ItemsEqual(nil, x), "not equal to the nil item")
+		}},
 		{name: "ItemsEqual(x,(*Object)(nil))", run: func(x ap.Item, r *c20Result) {
 			must(r, ap.ItemsEqual(x, (*ap.Object)(nil)) && ap.ItemsEqual((*ap.Activity)(nil), x), "not equal to another typed nil")
 		}},
 		{name: "ItemsEqual(x,valid)", run: func(x ap.Item, r *c20Result) { must(r, !ap.ItemsEqual(x, c20Valid()), "equal to a non-nil object") }},
-		{name: "ItemsEqual(valid,x)", run: func(x ap.Item, r *c20Result) { must(r, !ap.ItemsEqual(c20Valid(), x), "a non-nil object is equal to it") }},
+		{name: "ItemsEqual(valid,x)", run: func(x ap.Item, r *c20Result) {
+			must(r, !ap.ItemsEqual(c20Valid(), x), "a non-nil object is equal to it")
+		}},
 		{name: "ItemsEqual(x,IRI)", run: func(x ap.Item, r *c20Result) {
 			must(r, !ap.ItemsEqual(x, ap.IRI("https://example.com/i")) && !ap.ItemsEqual(ap.IRI("https://example.com/i"), x), "equal to a non-nil IRI")
 		}},
@@ -82,12 +86,18 @@ func c20Helpers() []c20Helper {
 		{name: "OnCollectionPage", run: func(x ap.Item, r *c20Result) { ap.OnCollectionPage(x, c20cb[ap.CollectionPage](r)) }},
 		{name: "OnOrderedCollection", run: func(x ap.Item, r *c20Result) { ap.OnOrderedCollection(x, c20cb[ap.OrderedCollection](r)) }},
 		{name: "OnOrderedCollectionPage", run: func(x ap.Item, r *c20Result) { ap.OnOrderedCollectionPage(x, c20cb[ap.OrderedCollectionPage](r)) }},
-		{name: "OnPlace", run: func(x ap.Item, r *c20Result) { ap.OnPlace(x, func(p *ap.Place) error { r.cb = append(r.cb, p); return nil }) }},
-		{name: "OnProfile", run: func(x ap.Item, r *c20Result) { ap.OnProfile(x, func(p *ap.Profile) error { r.cb = append(r.cb, p); return nil }) }},
+		{name: "OnPlace", run: func(x ap.Item, r *c20Result) {
+			ap.OnPlace(x, func(p *ap.Place) error { r.cb = append(r.cb, p); return nil })
+		}},
+		{name: "OnProfile", run: func(x ap.Item, r *c20Result) {
+			ap.OnProfile(x, func(p *ap.Profile) error { r.cb = append(r.cb, p); return nil })
+		}},
 		{name: "OnRelationship", run: func(x ap.Item, r *c20Result) {
 			ap.OnRelationship(x, func(p *ap.Relationship) error { r.cb = append(r.cb, p); return nil })
 		}},
-		{name: "OnTombstone", run: func(x ap.Item, r *c20Result) { ap.OnTombstone(x, func(p *ap.Tombstone) error { r.cb = append(r.cb, p); return nil }) }},
+		{name: "OnTombstone", run: func(x ap.Item, r *c20Result) {
+			ap.OnTombstone(x, func(p *ap.Tombstone) error { r.cb = append(r.cb, p); return nil })
+		}},
 		{name: "OnItem", run: func(x ap.Item, r *c20Result) { ap.OnItem(x, func(ap.Item) error { return nil }) }},
 		{name: "On[Object]", run: func(x ap.Item, r *c20Result) { ap.On[ap.Object](x, c20cb[ap.Object](r)) }},
 		{name: "On[*Object]", run: func(x ap.Item, r *c20Result) { ap.On[*ap.Object](x, func(p **ap.Object) error { return nil }) }},
@@ -112,12 +122,16 @@ func c20Helpers() []c20Helper {
 		{name: "Flatten", run: func(x ap.Item, r *c20Result) { ap.Flatten(x) }},
 		{name: "FlattenToIRI", run: func(x ap.Item, r *c20Result) { ap.FlattenToIRI(x) }},
 		{name: "FlattenProperties", run: func(x ap.Item, r *c20Result) { ap.FlattenProperties(x) }},
-		{name: "FlattenItemCollection", run: func(x ap.Item, r *c20Result) { ap.FlattenItemCollection(ap.ItemCollection{x, ap.IRI("https://example.com/i"), x}) }},
+		{name: "FlattenItemCollection", run: func(x ap.Item, r *c20Result) {
+			ap.FlattenItemCollection(ap.ItemCollection{x, ap.IRI("https://example.com/i"), x})
+		}},
 		{name: "ItemCollectionDeduplication", run: func(x ap.Item, r *c20Result) {
 			a, b := ap.ItemCollection{x, ap.IRI("https://example.com/i")}, ap.ItemCollection{ap.IRI("https://example.com/i"), x}
 			ap.ItemCollectionDeduplication(&a, &b, nil)
 		}},
-		{name: "CleanRecipients", run: func(x ap.Item, r *c20Result) { must(r, ap.CleanRecipients(x) == nil || !ap.IsNil(x), "CleanRecipients(nil-like) != nil") }},
+		{name: "CleanRecipients", run: func(x ap.Item, r *c20Result) {
+			must(r, ap.CleanRecipients(x) == nil || !ap.IsNil(x), "CleanRecipients(nil-like) != nil")
+		}},
 		{name: "DerefItem", run: func(x ap.Item, r *c20Result) { ap.DerefItem(x) }},
 		{name: "ItemOrderTimestamp(x,valid)", run: func(x ap.Item, r *c20Result) { ap.ItemOrderTimestamp(x, c20Valid()) }},
 		{name: "ItemOrderTimestamp(valid,x)", run: func(x ap.Item, r *c20Result) { ap.ItemOrderTimestamp(c20Valid(), x) }},
@@ -141,7 +155,11 @@ func c20Helpers() []c20Helper {
 		}},
 		{name: "CollectionPath.IRI", run: func(x ap.Item, r *c20Result) { ap.Inbox.IRI(x); ap.Likes.IRI(x) }},
 		{name: "CollectionPath.Of", run: func(x ap.Item, r *c20Result) { ap.Inbox.Of(x); ap.Likes.Of(x) }},
-		{name: "CollectionPath.AddTo", run: func(x ap.Item, r *c20Result) { ap.Inbox.AddTo(x); ap.Likes.AddTo(x); ap.CollectionPath("custom").AddTo(x) }},
+		{name: "CollectionPath.AddTo", run: func(x ap.Item, r *c20Result) {
+			ap.Inbox.AddTo(x)
+			ap.Likes.AddTo(x)
+			ap.CollectionPath("custom").AddTo(x)
+		}},
 		{name: "IRI.ItemsMatch", run: func(x ap.Item, r *c20Result) { ap.IRI("https://example.com").ItemsMatch(x) }},
 		{name: "IRIs.Contains", run: func(x ap.Item, r *c20Result) {
 			must(r, !ap.IRIs{"https://example.com/i"}.Contains(x) || !ap.IsNil(x), "IRIs.Contains(nil-like) is true")
@@ -156,7 +174,9 @@ func c20Helpers() []c20Helper {
 	pre := func() ap.ItemCollection { return ap.ItemCollection{ap.IRI("https://example.com/i"), c20Valid()} }
 	conts := []cont{
 		{"ItemCollection", func() ap.CollectionInterface { c := pre(); return &c }},
-		{"Collection", func() ap.CollectionInterface { return &ap.Collection{ID: "https://example.com/c", Type: ap.CollectionType, Items: pre()} }},
+		{"Collection", func() ap.CollectionInterface {
+			return &ap.Collection{ID: "https://example.com/c", Type: ap.CollectionType, Items: pre()}
+		}},
 		{"CollectionPage", func() ap.CollectionInterface {
 			return &ap.CollectionPage{ID: "https://example.com/c", Type: ap.CollectionPageType, Items: pre()}
 		}},
